@@ -752,7 +752,8 @@ def run_lbasis(env, a):
 def op_mapping(rng, specs):
     mid = str(rng.choice(_mesh_ids(specs, kinds=["tri", "quad", "tet", "hex", "wedge"], unit=False)))
     return dict(mid=mid, meth=str(rng.choice(["F", "DF", "invDF", "detDF", "invF"])),
-                xvar=str(rng.choice(getattr(specs, "mapping_xvars", None) or ["shared", "percell", "percell-1pt", "shared-1pt"])),
+                xvar=str(rng.choice(getattr(specs, "mapping_xvars", None) or ["shared", "percell", "percell-1pt", "shared-1pt", "shared-square", "shared-square-fortran",
+                                                                                       "shared-square", "shared-square-fortran"])),
                 tvar=str(rng.choice(getattr(specs, "mapping_tvars", None) or ["int32-two", "int64-one", "int32-one", "none"])),
                 iso=bool(rng.random() < 0.7), inplace=bool(rng.random() < getattr(specs, "inplace_bias", 0.35)),
                 shift=int(rng.integers(3)))
@@ -777,7 +778,14 @@ def run_mapping(env, a):
     tv = {"int32-two": np.array([1, 0], dtype=np.int32), "int64-one": np.array([1], dtype=np.int64),
           "int32-one": np.array([1], dtype=np.int32), "none": None}[a["tvar"]]
     nc = m.t.shape[1] if tv is None else len(tv)
-    if a["xvar"] == "shared":
+    square = a["xvar"].startswith("shared-square")
+    if square:
+        # point sets of the same shape (d, d) and the same BYTES in memory, one C-ordered, the other Fortran-ordered (its
+        # values are the transposed ones): d different points each
+        Sq = np.linspace(0.1, 0.3, d * d).reshape(d, d)
+        Xp = Sq.copy() if a["xvar"] == "shared-square" else np.asfortranarray(Sq.T)
+        a = dict(a, inplace=False)
+    elif a["xvar"] == "shared":
         Xp = base.copy()
     elif a["xvar"] == "shared-1pt":
         Xp = base[:, :1].copy()
@@ -809,6 +817,8 @@ def run_mapping(env, a):
         seen = env.used[("mapping", a["mid"], a["iso"])]
         if warm and any(x[0] != a["xvar"] for x in seen if len(x) == 2):
             flags["warm:jacobian-cache-same-bytes-other-shape"] = True
+        if warm and square and any(x[0] != a["xvar"] and str(x[0]).startswith("shared-square") for x in seen if len(x) == 2):
+            flags["warm:jacobian-cache-same-bytes-other-memory-order"] = True
         if warm and any(x[1] != a["tvar"] for x in seen if len(x) == 2):
             flags["warm:jacobian-cache-other-dtype"] = True
     else:
